@@ -371,9 +371,16 @@ class Fn:
                 return f'(← Rs.{op.lower()}_{lt} {a} (Rs.toInt_{rt} {b}))'
         if h.startswith('Call') and (s.callee(k)[0] or '').endswith('::rng::Rng::gen_range'):
             # `rng.gen_range(lo..hi)`: the drawn value becomes an extra INPUT of the model, with the contract lo <= r < hi
-            rk=s.unwrap(kid(k,'args:').kids[1])[1]; fs=s.adt_fields(rk)
+            rk=s.unwrap(kid(k,'args:').kids[1])[1]
+            nm=f'rng_{len(s.rng_params)+1}'
+            if rk.text.startswith('Call') and 'RangeInclusive' in (s.callee(rk)[0] or ''):
+                # `lo..=hi` is `RangeInclusive::new(lo, hi)`: contract lo <= r <= hi
+                ra=kid(rk,'args:').kids; lo=s.term(ra[0]); hi=s.term(ra[1])
+                s.rng_params.append((nm,LEANTY[t]))
+                return f'(← Rs.gen_range_incl_{t} {nm} {lo} {hi})'
+            fs=s.adt_fields(rk)
             lo=s.term(fs[0].kids[0]); hi=s.term(fs[1].kids[0])
-            nm=f'rng_{len(s.rng_params)+1}'; s.rng_params.append((nm,LEANTY[t]))
+            s.rng_params.append((nm,LEANTY[t]))
             return f'(← Rs.gen_range_{t} {nm} {lo} {hi})'
         if h.startswith('Call'):
             p,gargs=s.callee(k); args=[s.term(x) for x in kid(k,'args:').kids]; s.cur_gargs=gargs
